@@ -35,13 +35,22 @@ Inductive itoken := Tok (roster tree proto service round node : L).
 Definition ktab := list (L * L * nat).     (* kbin, kstr, point type *)
 Definition iroster := list (option nat * list (option nat)).
 
+(* a roster built by NewRoster from a slice the caller then edits: the edits, and what
+   the roster shows afterwards (several runs: twice in-process, once in a fresh
+   process): its ID field, GetID(), its member list, and for every ORIGINAL member
+   the position Search finds it at *)
+Inductive iedit := ISwap (i j : nat) | ISet (i : nat) (m : option nat * list (option nat)).
+Inductive aobs := AObs (idfield getid : ores) (members : iroster) (search : list (option nat))
+                       (h256 u : list (L * L)).
+
 Inductive gcase :=
 | CRosters (kt : ktab) (items : list (iroster * obs))
 | CTrees (kt : ktab) (items : list ((option L * itree) * obs))
 | CTokens (items : list (itoken * obs))
 | CProtos (items : list (L * obs))
 | CServices (items : list (L * obs))
-| CKeys (kind : nat) (kt : ktab) (items : list (option nat * obs)).   (* 0 server id, 1 node id *)
+| CKeys (kind : nat) (kt : ktab) (items : list (option nat * obs))   (* 0 server id, 1 node id *)
+| CAlias (kt : ktab) (items : list (iroster * list iedit * list aobs)).
 
 (* ---- decoding ------------------------------------------------------------ *)
 Fixpoint opt_all {A} (l : list (option A)) : option (list A) :=
@@ -186,6 +195,58 @@ Definition agree_key (kind : nat) (ks : list key) (it : option nat * obs) : bool
   | _, _ => false
   end.
 
+(* ---- the roster value after edits of the caller's slice ------------------------ *)
+Definition okey_eqb (a b : option key) : bool :=
+  match a, b with
+  | None, None => true
+  | Some x, Some y => key_eqb x y
+  | _, _ => false
+  end.
+
+Definition gmember_eqb (a b : gmember) : bool :=
+  okey_eqb (g_key a) (g_key b) && list_eqb okey_eqb (g_srv a) (g_srv b).
+
+Definition onat_eqb (a b : option nat) : bool :=
+  match a, b with
+  | None, None => true
+  | Some x, Some y => x =? y
+  | _, _ => false
+  end.
+
+Definition dec_edit (ks : list key) (e : iedit) : option slice_edit :=
+  match e with
+  | ISwap i j => Some (ESwap i j)
+  | ISet i m => match dec_member ks m with Some g => Some (ESet i g) | None => None end
+  end.
+
+Definition expected_search (g : list gmember) : list (option nat) :=
+  map (fun m => match g_key m with Some k => roster_search g k 0 | None => None end) g.
+
+(* model vs observation: the world after the edits still holds the value NewRoster
+   returned; ID field and GetID() are the id of the ORIGINAL list *)
+Definition agree_aobs (ks : list key) (g : list gmember) (edits : list slice_edit) (a : aobs) : bool :=
+  match a with
+  | AObs idf gid members search h u =>
+      let H := lookup (map (fun p => (unlit (fst p), unlit (snd p))) h) in
+      let U := lookup (map (fun p => (unlit (fst p), unlit (snd p))) u) in
+      match new_roster_val H U g, dec_res idf, dec_res gid, dec_roster ks members with
+      | Some v, Some oid, Some ogid, Some om =>
+          let v' := snd (fold_left edit_world edits (g, v)) in
+          res_eqb (RId (rv_id v')) oid && res_wf oid &&
+          res_eqb (roster_get_id H U (rv_list v')) ogid &&
+          list_eqb gmember_eqb (rv_list v') om &&
+          list_eqb onat_eqb (expected_search (rv_list v')) search
+      | _, _, _, _ => false
+      end
+  end.
+
+Definition agree_alias (ks : list key) (it : iroster * list iedit * list aobs) : bool :=
+  match dec_roster ks (fst (fst it)), opt_all (map (dec_edit ks) (snd (fst it))) with
+  | Some g, Some es =>
+      negb (match snd it with [] => true | _ => false end) && forallb (agree_aobs ks g es) (snd it)
+  | _, _ => false
+  end.
+
 Definition gagree (c : gcase) : bool :=
   match c with
   | CRosters kt items =>
@@ -200,6 +261,8 @@ Definition gagree (c : gcase) : bool :=
       | Some ks => forallb (agree_key kind ks) items && forallb key_str_ok ks
       | None => false
       end
+  | CAlias kt items =>
+      match dec_ktab kt with Some ks => forallb (agree_alias ks) items | None => false end
   end.
 
 
@@ -321,6 +384,30 @@ Definition entry_key (ks : list key) (it : option nat * obs) :=
   | _, _ => None
   end.
 
+(* the property on the observation: whatever the caller did to its slice afterwards,
+   the roster still has the members it was built from, finds each of them where it
+   was, and its id is the id of its own list (ID field = GetID() = a 16-byte id) *)
+Definition aobs_ok (ks : list key) (g : list gmember) (a : aobs) : bool :=
+  match a with
+  | AObs idf gid members search _ _ =>
+      match dec_res idf, dec_res gid, dec_roster ks members with
+      | Some (RId b), Some (RId b'), Some om =>
+          (List.length b =? 16) && bytes_eqb b b' &&
+          list_eqb gmember_eqb g om && list_eqb onat_eqb (expected_search g) search
+      | _, _, _ => false
+      end
+  end.
+
+Definition alias_item_ok (ks : list key) (it : iroster * list iedit * list aobs) : bool :=
+  match dec_roster ks (fst (fst it)) with
+  | Some g =>
+      match roster_legal g with
+      | Some _ => negb (match snd it with [] => true | _ => false end) && forallb (aobs_ok ks g) (snd it)
+      | None => true        (* only legal rosters are generated; nothing is demanded of others *)
+      end
+  | None => false
+  end.
+
 Definition gcheck (c : gcase) : list nat :=
   match c with
   | CRosters kt items =>
@@ -340,6 +427,11 @@ Definition gcheck (c : gcase) : list nat :=
   | CKeys _ kt items =>
       match dec_ktab kt with
       | Some ks => finish key_eqb (fun _ _ => 9) (combine_entries (map (entry_key ks) items))
+      | None => [11]
+      end
+  | CAlias kt items =>
+      match dec_ktab kt with
+      | Some ks => clause 12 (forallb (alias_item_ok ks) items)
       | None => [11]
       end
   end.
